@@ -295,13 +295,14 @@ def check_property(pid, tier, seed):
                     known_hits.append({"signature": hit["signature"], "what": k.get("what", "")})
             else:
                 if hit["signature"] not in [v[0] for v in violations]:
-                    rp = write_replay(pid, seed, len(violations), dict(hit, property=pid, kind="monitor", seed=seed))
-                    violations.append((hit["signature"], rp, False))
+                    rp = write_replay(pid, seed, len(violations), dict(hit, property=pid, kind="proof" if hit.get("unproved") else "monitor", seed=seed))
+                    violations.append((hit["signature"], rp, bool(hit.get("unproved"))))
 
     # directed search when a proof obligation or the correspondence broke but no monitor fired
     if (proof_broken or corr_broken) and not violations:
         found = False
-        for extra in range(1, 4 if tier == "quick" else 9):
+        # (FZ_NO_SEARCH=1: regression runs over many seeded changes only need the verdict, not the witness)
+        for extra in (range(1, 4 if tier == "quick" else 9) if os.environ.get("FZ_NO_SEARCH") != "1" else []):
             for d in spec["drivers"]:
                 res = props.run_driver_check(sys.modules[__name__], pid, d, os.path.join(work, "search%d" % extra), seed + 1000 * extra, "thorough" if extra > 1 else tier, search=True)
                 for hit in res["monitor_hits"]:
